@@ -148,6 +148,14 @@ pub fn main_seqcase() -> i32 {
         eprintln!("seqcase: expected exactly one case on stdin");
         return 2;
     }
+    // Test hooks for the parent's failure handling.
+    match std::env::var("HARNESS_TEST_CHILD").as_deref() {
+        Ok("abort") => std::process::abort(),
+        Ok("exit3") => return 3,
+        Ok("sleep") => std::thread::sleep(Duration::from_secs(100_000)),
+        Ok("panic") => panic!("test panic outside the case"),
+        _ => {}
+    }
     let lines = run_case(&cases[0]);
     let mut out = String::new();
     out.push_str(&format!("CASE {}\n", cases[0].id));
@@ -218,6 +226,8 @@ struct Ctx {
     streams: BTreeMap<String, StreamState>,
     /// Distinct publish times in order of first appearance in the output.
     ptimes: Vec<(i64, i32)>,
+    /// Ack ids delivered so far (PULL / SR results), in output order.
+    acks: Vec<String>,
 }
 
 async fn run_ops(case: &Case, lines: Arc<Mutex<Vec<String>>>, report_bg: bool) {
@@ -235,6 +245,10 @@ async fn run_ops(case: &Case, lines: Arc<Mutex<Vec<String>>>, report_bg: bool) {
             return;
         }
     };
+
+    if std::env::var("HARNESS_TEST_CHILD").as_deref() == Ok("bgpanic") {
+        tokio::spawn(async { panic!("test background panic") });
+    }
 
     for line in &case.ops {
         let res = exec(&mut ctx, line).await;
@@ -299,6 +313,7 @@ async fn start() -> Result<Ctx, Fail> {
         subscriber: SubscriberClient::new(channel),
         streams: BTreeMap::new(),
         ptimes: Vec::new(),
+        acks: Vec::new(),
     })
 }
 
@@ -379,7 +394,38 @@ impl Ctx {
         }
     }
 
+    /// Resolves the ack-id references `@k` (k-th most recent) and `^k` (k-th
+    /// delivered), modulo the number delivered; "0" when nothing was delivered.
+    fn resolve_refs(&self, line: &str) -> String {
+        line.split(' ')
+            .map(|tok| {
+                let (from_end, rest) = if let Some(r) = tok.strip_prefix('@') {
+                    (true, r)
+                } else if let Some(r) = tok.strip_prefix('^') {
+                    (false, r)
+                } else {
+                    return tok.to_string();
+                };
+                match rest.parse::<u64>() {
+                    Err(_) => tok.to_string(),
+                    Ok(k) => {
+                        if self.acks.is_empty() {
+                            hexs("0")
+                        } else {
+                            let n = self.acks.len() as u64;
+                            let i = k % n;
+                            let idx = if from_end { n - 1 - i } else { i };
+                            hexs(&self.acks[idx as usize])
+                        }
+                    }
+                }
+            })
+            .collect::<Vec<_>>()
+            .join(" ")
+    }
+
     fn fmt_msg(&mut self, m: &ReceivedMessage) -> String {
+        self.acks.push(m.ack_id.clone());
         let empty = PubsubMessage::default();
         let (msg, has) = match &m.message {
             Some(msg) => (msg, true),
@@ -421,6 +467,8 @@ impl Ctx {
 
 /// Executes one op line.
 async fn exec(ctx: &mut Ctx, line: &str) -> OpResult {
+    let resolved = ctx.resolve_refs(line);
+    let line: &str = &resolved;
     let mut t = Toks::new(line);
     let op = t.next().map_err(bad)?;
     match op {
@@ -602,6 +650,33 @@ async fn exec(ctx: &mut Ctx, line: &str) -> OpResult {
                 });
             }
             t.end().map_err(bad)?;
+            let req = PublishRequest { topic, messages };
+            Ok(match call(ctx.publisher.publish(req)).await? {
+                Ok(resp) => {
+                    let mut s = format!("PUB 0 {}", resp.message_ids.len());
+                    for id in &resp.message_ids {
+                        s.push(' ');
+                        s.push_str(&hexs(id));
+                    }
+                    s
+                }
+                Err(code) => format!("PUB {}", code),
+            })
+        }
+        "PUBN" => {
+            let topic = t.str().map_err(bad)?;
+            let k: usize = t.num().map_err(bad)?;
+            let data = t.bytes().map_err(bad)?;
+            t.end().map_err(bad)?;
+            let messages = (0..k)
+                .map(|_| PubsubMessage {
+                    data: data.clone(),
+                    attributes: HashMap::new(),
+                    message_id: String::new(),
+                    publish_time: None,
+                    ordering_key: String::new(),
+                })
+                .collect();
             let req = PublishRequest { topic, messages };
             Ok(match call(ctx.publisher.publish(req)).await? {
                 Ok(resp) => {
